@@ -68,6 +68,13 @@ ExactSet(r)       == UNION TokBits(r) = SeqToSet(r.bits)
 NoDuplicate(r)    == \A i, j \in 1..Len(r.toks) : i # j => r.toks[i].t # r.toks[j].t
 ParsesBack(r)     == r.pok /\ SeqToSet(r.pback) = SeqToSet(r.bits)
 
+\* field rows [fam, node, field, place, v, printed, omitted, ok, back, mate]: the value v of family fam
+\* set in the enum-typed field of a specialised metadata node that stands at place ("numbered":
+\* `!0 = !DIx(..)`, "inline": `!0 = !{!DIx(..)}`), printed, parsed, read back.  The value must come
+\* back whether the printer wrote the field or omitted it as a default, and both places must read alike.
+FieldRoundTrip(r)   == r.ok /\ r.back = r.v
+PlaceAgnostic(r, s) == r.ok = s.ok /\ r.back = s.back /\ r.omitted = s.omitted /\ r.printed = s.printed
+
 ----------------------------------------------------------------------------
 (* Generator *)
 MemberRows == IF MembersFile = "" THEN <<>> ELSE ndJsonDeserialize(MembersFile)
